@@ -160,4 +160,17 @@ CHECKS = {
         quick=dict(stages=[st(8, timeout=900)]),
         thorough=dict(stages=[st(40, shards=5, timeout=3000)]),
     ),
+    "C08": dict(
+        pkg="c08", level="exploration",
+        overlay=dict(inject={"io/zz_verif_export.go": "harness/overlays/io_export.go"}),
+        rule="rapid-generated histories of 1-25 operations over two files in the HDF5 stand-in: Create (new / same shape / different shape / with compression), Write of a generated source view (all 8 element types, Go- and C-backed, any layout), WriteSlice of a generated sub-array at a location, Load with Slice nil or per-dimension nil | [start, stop, step] (stop possibly beyond the extent, step 1..4), Exists / Shape / GetDatasets / GetGroups; "
+             "model = map path -> (type, shape, values); after every operation the raw bytes of every dataset (decoded independently) and a whole-dataset Load equal the model, Load(sel) has exactly the shape and elements of the in-memory slice start:min(stop,n):step, re-create leaves values unchanged and a different shape is refused, listings equal the model; lock probe at every stand-in call (TryLock must fail; for mutating calls TryRLock must fail); "
+             "exhaustive enumeration of sliceSize / makeHyperslab over n<=12, all start, stop<=n+3, step<=5; concurrent workers each owning a dataset of one shared file (run under the race detector in the thorough tier); a self-check of the stand-in's selection against nested loops. "
+             "Non-trivial = a load with step>1 or clipped stop, or a write whose source view is non-contiguous, or a selection triple with step>1 / clipped stop; distinct = distinct case",
+        assumptions=["libhdf5 is not installed: a pure-Go stand-in (/verif/fakehdf5) with the binding's API, type table and raw-transfer rule is the trusted base; agreement with the real libhdf5 ABI (cgo type mapping, chunking/deflate, real error codes) cannot be executed here",
+                     "empty selections and compress=true (refused by libhdf5 on a contiguous layout) are a separate class that must only leave everything else intact",
+                     "Create ignoring its fillValue and WriteSlice swallowing the library's error are not flagged"],
+        quick=dict(stages=[st(2000, run="TestRoundTripHistories|TestSelectionHelpersExhaustive|TestStandInSelfCheck", timeout=900), st(300, run="TestConcurrentCallers", timeout=900)]),
+        thorough=dict(stages=[st(20000, shards=12, run="TestRoundTripHistories|TestSelectionHelpersExhaustive|TestStandInSelfCheck", timeout=3000), st(1500, shards=4, race=True, run="TestConcurrentCallers", timeout=3000)]),
+    ),
 }
